@@ -57,6 +57,15 @@ def oracle(text, edits, wi, hl, out):
             for m in re.finditer(r'\[Edit:(\d+)\]', b):
                 if not wi: return 'an edit index is displayed although indexes were not requested'
                 if int(m.group(1)) >= len(edits): return 'displayed edit index %s is not a position of the submitted list' % m.group(1)
+    # the index displayed with a suggestion is the position of THAT edit in the submitted list
+    for j, (k, b) in enumerate(blocks):
+        if k != 'cm': continue
+        for m in re.finditer(r'\[Edit:(\d+)\]', b):
+            n_ = int(m.group(1)); tg = edits[n_][0] if n_ < len(edits) else None
+            if n_ < len(edits) and not edits[n_][0]: return 'index %d is displayed, but edit %d of the submitted list has an empty target (it matches nothing and leaves no trace)' % (n_, n_)
+            prev = next((bb for kk, bb in reversed(blocks[:j]) if kk in ('del', 'hl')), None)
+            if tg and prev is not None and text.count(tg) == 1 and not any(c in tg for c in '*_') and not any(c in prev for c in '*_') and prev != tg and sum(1 for e in edits if e[0] == prev) == 1:
+                return 'the suggestion on %r displays [Edit:%d], but edit %d of the submitted list targets %r' % (prev, n_, n_, tg)
     nsugg = sum(1 for k, _ in blocks if k in ('del', 'hl')) + sum(1 for j, (k, _) in enumerate(blocks) if k == 'ins' and (j == 0 or blocks[j - 1][0] != 'del'))
     if all((not tg) or (text.find(tg) == -1 and not fz) for (tg, nw, cm), fz in zip(edits, [None] * len(edits))):
         pass
@@ -116,7 +125,7 @@ def gen(tier, rng):
         for g in targets:
             cases.append((t, [(g, rng.choice(NEWS), rng.choice([None, 'c', '']))], rng.random() < .3, rng.random() < .2))
     nex = len(cases)
-    words = ['alpha', 'beta', 'The', 'fox', '**bold**', '_it_', '[___]', '“q”', '"q"', "it's", 'it’s', '- item', '1. one', 'a_b', 'x']
+    words = ['alpha', 'beta', 'The', 'fox', '**bold**', '_it_', '[___]', '“q”', '"q"', "it's", 'it’s', '- item', '1. one', 'a_b', 'x', '***x***', '**a *b***', '___a b___', '**_y_**']
     for _ in range(nrand):
         if rng.random() < .5:
             t = rng.choice(texts) + rng.choice(texts)
